@@ -1306,6 +1306,10 @@ impl RaftLogManager {
         }
         if i > 0 {
             self.logs = self.logs.split_off(i);
+            if self.logs.is_empty() {
+                //the open log file was removed too: the next write must start a new log file
+                self.current_log_actor = None;
+            }
             let save_logs = self.logs.iter().map(|e| e.log_range.clone()).collect();
             let index_request = RaftIndexRequest::SaveLogs(save_logs);
             self.index_manager.as_ref().unwrap().do_send(index_request);
